@@ -90,15 +90,15 @@ fn snapshot(root: &Path, exclude: &[&Path]) -> Snap {
             };
             let rel = p.strip_prefix(base).unwrap().to_string_lossy().to_string();
             if md.is_dir() {
-                out.insert(rel + "/", (0, md.mtime(), md.mtime_nsec(), String::new()));
+                out.insert(rel + "/", (0, md.mtime(), md.mtime_nsec(), format!("mode={:o} uid={}", md.mode(), md.uid())));
                 rec(base, &p, exclude, out);
             } else if md.file_type().is_symlink() {
                 let t = std::fs::read_link(&p).map(|t| t.to_string_lossy().to_string()).unwrap_or_default();
-                out.insert(rel, (md.len(), md.mtime(), md.mtime_nsec(), format!("-> {t}")));
+                out.insert(rel, (md.len(), md.mtime(), md.mtime_nsec(), format!("-> {t} uid={}", md.uid())));
             } else {
                 // content hashes for files up to 64 KiB; larger ones are covered by size + mtime
                 let h = if md.len() <= 65536 { std::fs::read(&p).map(|b| sha256_hex(&b)).unwrap_or_default() } else { String::from("(large)") };
-                out.insert(rel, (md.len(), md.mtime(), md.mtime_nsec(), h));
+                out.insert(rel, (md.len(), md.mtime(), md.mtime_nsec(), format!("{h} mode={:o} uid={}", md.mode(), md.uid())));
             }
         }
     }
@@ -177,7 +177,7 @@ impl Engine for C15 {
          the cache lives inside a sandbox directory next to sentinel files and decoy 'index-v5' / 'content-v2' / 'tmp' siblings, the sandbox is the working directory and TMPDIR \
          points at an empty sentinel directory. Executed twice: (A) in process against the reference model — every key is an independent entry, confusable keys never alias; (B) in \
          a driver process under the ptrace supervisor, all threads, mutating-call gates. Oracles: (a) containment — every path of every mutating system call, resolved against \
-         dirfd/cwd and normalised, lies under the cache root or is the destination given to an extraction step; (b) outside snapshot — names, sizes, mtimes and hashes of \
+         dirfd/cwd and normalised, lies under the cache root or is the destination given to an extraction step; (b) outside snapshot — names, sizes, mtimes, modes, owners and hashes of \
          everything in the sandbox outside the cache root and of the TMPDIR sentinel are unchanged; (c) opacity — the only index path a keyed step touches is the reference \
          bucket path of its key (and its ancestors); (d) read-only — reads, streams, metadata, exists, listing issue zero mutating calls and leave the cache tree byte- and \
          mtime-identical; in run (A) the cache directory is given under one of eight spellings (trailing slash, symlink, dot segments, non-ASCII and non-UTF-8 \
